@@ -55,38 +55,118 @@ def r1_siblings(run, w):
       continue
     _r1_one(run, R1, w, own)
   # the rejecting helper
+  _r1_reject_helper(run, R1, w)
+
+
+def _elements_of(fn, e, outer):
+  """What `for r in <e>` ranges over, relative to value variable `outer`: 'all' when e yields every
+  id of the value whether it is a single id or a list (`v if isinstance(v, list) else (v,)` and
+  spellings of it), 'some' when it recognisably yields only part, None when unknown."""
+  e = H.deref(fn, e)
+  is_outer = lambda x: isinstance(x, ast.Name) and x.id == outer
+  def is_list_test(t):
+    """polarity of `isinstance(outer, list[/tuple])`: True / False (negated) / None."""
+    if isinstance(t, ast.UnaryOp) and isinstance(t.op, ast.Not):
+      v = is_list_test(t.operand)
+      return None if v is None else (not v)
+    if isinstance(t, ast.Call) and dotted(t.func) == "isinstance" and len(t.args) == 2 and \
+        is_outer(t.args[0]):
+      kinds = [text(x) for x in (t.args[1].elts if isinstance(t.args[1], ast.Tuple)
+                                 else [t.args[1]])]
+      return True if "list" in kinds else None
+    return None
+  def single(x):
+    return isinstance(x, (ast.Tuple, ast.List)) and len(x.elts) == 1 and is_outer(x.elts[0])
+  if isinstance(e, ast.IfExp):
+    pol = is_list_test(e.test)
+    if pol is None:
+      return None
+    as_list, as_one = (e.body, e.orelse) if pol else (e.orelse, e.body)
+    if is_outer(as_list) and single(as_one):
+      return "all"
+    return "some"
+  if single(e) or is_outer(e):
+    return "some"
+  return None
+
+
+def _r1_reject_helper(run, R1, w):
   rj = w.fn("column.BaseReferenceColumn._reject_unresolved_temp_ids")
   p = rj.fi.params()[1]
   cfg = rj.cfg
   raises = [n for n in cfg.nodes if n.kind == "raise_stmt"]
-  ok = False
-  wit = None
-  if len(raises) == 1:
-    chain = H.guards_of(rj.node, raises[0].stmt)
-    loops = [s for (s, f) in chain if isinstance(s, ast.For)]
-    ifs = [s for (s, f) in chain if isinstance(s, ast.If)]
-    if not (len(loops) == 2 and len(ifs) == 1):
-      raise AnalysisError("_reject_unresolved_temp_ids: unrecognised shape (expected two nested "
-                          "loops and one test around the raise)")
-    if text(loops[0].iter) == p and not loops[0].orelse:
-      outer, inner = text(loops[0].target), text(loops[1].target)
-      it = loops[1].iter
-      covers = isinstance(it, ast.IfExp) and text(it.body) == outer and \
-          isinstance(it.test, ast.Call) and dotted(it.test.func) == "isinstance" and \
-          text(it.test.args[0]) == outer and isinstance(it.orelse, ast.Tuple) and \
-          [text(e) for e in it.orelse.elts] == [outer]
-      t = ifs[0].test
-      parts = t.values if isinstance(t, ast.BoolOp) and isinstance(t.op, ast.And) else [t]
-      neg = any(isinstance(x, ast.Compare) and text(x.left) == inner and len(x.ops) == 1 and
-                isinstance(x.ops[0], ast.Lt) and H.const_value(x.comparators[0]) == (True, 0)
-                for x in parts)
-      only_type = all((isinstance(x, ast.Compare) and text(x.left) == inner) or
-                      (isinstance(x, ast.Call) and dotted(x.func) == "isinstance" and
-                       text(x.args[0]) == inner and text(x.args[1]) == "int") for x in parts)
-      exc = raises[0].stmt.exc
-      is_value_error = isinstance(exc, ast.Call) and dotted(exc.func) == "ValueError"
-      ok = covers and neg and only_type and is_value_error
-      wit = "covers=%s neg=%s only_type=%s ValueError=%s" % (covers, neg, only_type, is_value_error)
+  if len(raises) != 1:
+    raise AnalysisError("_reject_unresolved_temp_ids: expected exactly one raise")
+  chain = H.guards_of(rj.node, raises[0].stmt)
+  loops = [s for (s, f) in chain if isinstance(s, ast.For)]
+  if len(loops) != 2 or any(isinstance(s, (ast.While, ast.Try, ast.With)) for (s, f) in chain):
+    raise AnalysisError("_reject_unresolved_temp_ids: unrecognised shape (expected two nested "
+                        "loops around the raise)")
+  outer_ok = H.canon(rj, loops[0].iter) == p and not loops[0].orelse and \
+      isinstance(loops[0].target, ast.Name)
+  outer = text(loops[0].target)
+  inner = text(loops[1].target)
+  cov = _elements_of(rj, loops[1].iter, outer)
+  if cov is None:
+    raise AnalysisError("_reject_unresolved_temp_ids: cannot tell what %s ranges over"
+                        % short(loops[1].iter))
+  covers = cov == "all" and isinstance(loops[1].target, ast.Name)
+  # the raise is reached exactly when the id is a negative int: `r < 0` (and being an int) are the
+  # only facts on the way from the inner loop header to the raise
+  heads = {n.id for n in cfg.nodes if n.kind == "for"}
+  inner_head = [n.id for n in cfg.nodes if n.kind == "for" and n.stmt is loops[1]][0]
+  def is_neg(e):
+    return isinstance(e, ast.Compare) and len(e.ops) == 1 and (
+      (text(e.left) == inner and isinstance(e.ops[0], ast.Lt) and
+       H.const_value(e.comparators[0]) == (True, 0)) or
+      (text(e.comparators[0]) == inner and isinstance(e.ops[0], ast.Gt) and
+       H.const_value(e.left) == (True, 0)))
+  def is_nonneg(e):
+    return isinstance(e, ast.Compare) and len(e.ops) == 1 and (
+      (text(e.left) == inner and isinstance(e.ops[0], ast.GtE) and
+       H.const_value(e.comparators[0]) == (True, 0)) or
+      (text(e.comparators[0]) == inner and isinstance(e.ops[0], ast.LtE) and
+       H.const_value(e.left) == (True, 0)))
+  def is_int(e):
+    return isinstance(e, ast.Call) and dotted(e.func) == "isinstance" and len(e.args) == 2 and \
+        text(e.args[0]) == inner and text(e.args[1]) in ("int", "six.integer_types", "(int,)")
+  # every test between the inner loop header and the raise is about the id being a negative int
+  from ..guards import facts
+  body_ifs = [n for n in cfg.nodes if n.kind == "if" and
+              any(s is n.stmt for s in H.stmts_under(loops[1].body))]
+  atoms = []
+  for n in body_ifs:
+    for pol in (True, False):
+      atoms += [(e, pl) for (e, pl) in facts(n.stmt.test, pol)]
+    if isinstance(n.stmt.test, ast.BoolOp):
+      atoms += [(v, True) for v in ast.walk(n.stmt.test)
+                if isinstance(v, (ast.Compare, ast.Call, ast.Name)) and
+                any(v is x for b in ast.walk(n.stmt.test) if isinstance(b, ast.BoolOp)
+                    for x in b.values)]
+  others = [e for (e, pl) in atoms if not (is_neg(e) or is_nonneg(e) or is_int(e))]
+  rid = raises[0].id
+  start = H.nodes_of_stmts(cfg, loops[1].body[:1])
+  def assume(neg, isint):
+    def val(e):
+      if is_neg(e):
+        return neg
+      if is_nonneg(e):
+        return not neg
+      if is_int(e):
+        return isint
+      return None
+    return val
+  # an id that is a negative int cannot get to the next iteration (or out) without the raise
+  always = not (H.reach_assuming(cfg, start, assume(True, True), removed={rid}) &
+                (heads | {cfg.exit.id}))
+  # an id that is not negative never raises
+  guarded = rid not in H.reach_assuming(cfg, start, assume(False, True))
+  exc = raises[0].stmt.exc
+  is_value_error = isinstance(exc, ast.Call) and dotted(exc.func) == "ValueError"
+  ok = outer_ok and covers and guarded and always and not others and is_value_error
+  wit = "outer=%s covers=%s raise-only-if-negative=%s negative-always-raises=%s other-tests=%s " \
+        "ValueError=%s" % (outer_ok, cov, guarded, always, [short(x, 30) for x in others],
+                           is_value_error)
   run.ob(R1, rj.qualname, "for v in values: for r in (v if list else (v,)): if int and r < 0: "
          "raise ValueError", "every id of every value (single or list) that is still negative "
          "raises, so the bundle is rejected", ok, witness=wit, fi=rj.fi)
@@ -95,6 +175,9 @@ def r1_siblings(run, w):
 def _r1_one(run, R1, w, fi):
   fn = w.fn_of(fi)
   cfg = fn.cfg
+  du = DefUse(fn)
+  rd = H.ReachDefs(fn, du)
+  ENTRY = H.ReachDefs.ENTRY
   ps = fi.params()
   if len(ps) < 3 or "action_summary" not in [a.arg for a in fi.node.args.args]:
     run.ob(R1, fi.qualname, "signature", "prepare_new_values takes (row_ids, values, ..., "
@@ -106,75 +189,147 @@ def _r1_one(run, R1, w, fi):
     run.ob(R1, fi.qualname, "%s.translate_new_row_ids(...)" % p_sum, "temporary ids in the new "
            "values are translated", False, fi=fi)
     return
+  if len(trans) != 1:
+    raise AnalysisError("%s: more than one translate_new_row_ids call" % fi.qualname)
   tn, tc = trans[0]
-  # the result variable: values = <expr containing the translation>
-  tst = tn.stmt
-  resv = tst.targets[0].id if isinstance(tst, ast.Assign) and len(tst.targets) == 1 and \
-      isinstance(tst.targets[0], ast.Name) else None
-  ok = len(trans) == 1 and len(tc.args) == 2 and text(tc.args[0]) == "self._target_table.table_id"
+  tfi = w.repo.func("action_summary.ActionSummary.translate_new_row_ids")
+  try:
+    a_table, a1 = H.arg_of(tc, tfi, "table_id"), H.arg_of(tc, tfi, "row_ids")
+  except AnalysisError:
+    a_table = a1 = None
+  ok = a_table is not None and H.canon(fn, a_table) == "self._target_table.table_id"
   run.ob(R1, fi.qualname, short(tc), "ids are looked up in the map of the table this column "
          "refers to", ok, fi=fi, node=tc)
+  # The binding the translated values end up in: the statement evaluating the call binds a local
+  # (directly, or -- for a per-element translation written as a loop -- by accumulation).
+  tst = tn.stmt
+  resv = None
+  tdef = None              # the CFG node that (re)binds the result variable
+  comp = None
+  if isinstance(tst, ast.Assign) and len(tst.targets) == 1 and isinstance(tst.targets[0], ast.Name):
+    resv, tdef = tst.targets[0].id, tn.id
+    for x in ast.walk(tst.value):
+      if isinstance(x, (ast.ListComp, ast.GeneratorExp)) and any(y is tc for y in ast.walk(x.elt)):
+        comp = x
+  else:
+    # accumulating loop: <acc>.append(<translated or passed through>) under `for v in values`
+    for nm_, ms in du.muts.items():
+      if tn.id in ms:
+        for d in du.defs.get(nm_, ()):
+          c2 = H.loop_as_comprehension(fn, du, rd, nm_, cfg.exit.id) \
+              if H.def_value(cfg, d) is not None else None
+          if c2 is not None and any(y is tc or text(y) == text(tc) for y in ast.walk(c2.elt)):
+            resv, tdef, comp = nm_, d, c2
   # what is translated comes from the values parameter: the parameter itself, or each element of a
-  # comprehension over it
-  a1 = tc.args[1] if len(tc.args) == 2 else None
+  # comprehension over it with untranslated elements passed through unchanged
   src_ok = False
-  if isinstance(a1, ast.Name):
-    if a1.id == p_vals:
-      src_ok = True
-    elif isinstance(tst, ast.Assign):
-      for comp in ast.walk(tst.value):
-        if isinstance(comp, (ast.ListComp, ast.GeneratorExp)) and len(comp.generators) == 1 and \
-            text(comp.generators[0].target) == a1.id and \
-            text(comp.generators[0].iter) == p_vals and not comp.generators[0].ifs:
-          # the untranslated alternative must be the element itself
-          e = comp.elt
-          src_ok = (e is tc) or (isinstance(e, ast.IfExp) and e.body is tc and
-                                 text(e.orelse) == a1.id)
+  if a1 is not None:
+    if comp is None:
+      src_ok = H.whole_of(fn, rd, a1, tn.id,
+                          lambda x, d: isinstance(x, str) and x == p_vals and d == ENTRY) is True
+    elif isinstance(a1, ast.Name) and len(comp.generators) == 1 and \
+        text(comp.generators[0].target) == a1.id and not comp.generators[0].ifs and \
+        H.whole_of(fn, rd, comp.generators[0].iter, getattr(comp, "_loop_node", tn.id),
+                   lambda x, d: isinstance(x, str) and x == p_vals and d == ENTRY) is True:
+      e = comp.elt
+      is_tc = lambda y: y is tc or text(y) == text(tc)
+      src_ok = is_tc(e) or (isinstance(e, ast.IfExp) and (
+        (is_tc(e.body) and text(e.orelse) == a1.id) or (is_tc(e.orelse) and text(e.body) == a1.id)))
   run.ob(R1, fi.qualname, "translate(%s)" % (text(a1) if a1 is not None else "?"),
          "what is translated is the incoming values (each of them), and an untranslated value is "
          "passed through unchanged", src_ok and resv is not None, fi=fi, node=tc)
   if resv is None:
     return
-  # guards: only `if action_summary [and values]` (possibly nested)
-  chain = H.guards_of(fi.node, tst)
-  g_ok = bool(chain) and all(isinstance(s, ast.If) and f == "body" and not s.orelse
-                             for (s, f) in chain)
-  if g_ok:
-    parts = []
-    for (s, f) in chain:
-      t = s.test
-      parts += t.values if isinstance(t, ast.BoolOp) and isinstance(t.op, ast.And) else [t]
-    g_ok = all(isinstance(x, ast.Name) and x.id in (p_sum, p_vals) for x in parts) and \
-        any(isinstance(x, ast.Name) and x.id == p_sum for x in parts)
-  run.ob(R1, fi.qualname, "if %s: translate" % p_sum, "translation is skipped only when no action "
-         "summary is given (or there are no values)", g_ok, fi=fi)
-  rej = {n.id for (n, c, nm) in fn.calls() if nm == "self._reject_unresolved_temp_ids" and
-         [text(a) for a in c.args] == [resv]}
+  # the delegation to the base class
+  base = w.repo.func("column.BaseReferenceColumn.prepare_new_values")
   dele = [(n, c) for (n, c, nm) in fn.calls() if isinstance(c.func, ast.Attribute) and
           c.func.attr == "prepare_new_values" and isinstance(c.func.value, ast.Call) and
           dotted(c.func.value.func) == "super"]
-  ok = len(dele) == 1
-  if ok:
-    dn, dc = dele[0]
-    ok = len(dc.args) >= 2 and text(dc.args[0]) == p_rows and text(dc.args[1]) == resv and \
-        H.kwarg(dc, "action_summary") is not None and \
-        text(H.kwarg(dc, "action_summary")) == p_sum and dn.kind == "return" and \
-        dn.stmt.value is dc and cfg.dominated_by(cfg.exit.id, {dn.id})
+  if len(dele) != 1:
+    run.ob(R1, fi.qualname, "return super().prepare_new_values(...)", "the translated values are "
+           "delegated to the base class exactly once", False, fi=fi)
+    return
+  dn, dc = dele[0]
+  try:
+    d_rows, d_vals, d_sum = (H.arg_of(dc, base, "row_ids"), H.arg_of(dc, base, "values"),
+                             H.kwarg(dc, "action_summary") or
+                             (dc.args[3] if len(dc.args) > 3 else None))
+  except AnalysisError:
+    raise AnalysisError("%s: cannot bind the arguments of %s" % (fi.qualname, short(dc)))
+  is_tr = lambda x, d: isinstance(x, str) and ((x == resv and d == tdef) or
+                                               (x == p_vals and d == ENTRY))
+  vals_ok = d_vals is not None and H.whole_of(fn, rd, d_vals, dn.id, is_tr) is True and \
+      isinstance(d_vals, ast.Name) and tdef in _defs_feeding(fn, rd, d_vals, dn.id)
+  rets = H.return_values(fn, du, rd)
+  ret_ok = bool(rets) and all(e is dc for (n, e, at) in rets) and \
+      cfg.dominated_by(cfg.exit.id, {dn.id})
+  ok = d_rows is not None and H.canon(fn, d_rows) == p_rows and vals_ok and \
+      d_sum is not None and H.canon(fn, d_sum) == p_sum and ret_ok
   run.ob(R1, fi.qualname, "return super().prepare_new_values(row_ids, %s, ..., action_summary="
          "action_summary)" % resv, "the base class (reverse-reference adjustments) works on the "
-         "translated values and the result is what the caller gets", ok, fi=fi)
+         "translated values and the result is what the caller gets", ok, fi=fi,
+         witness=None if ok else "rows=%s values=%s summary=%s returned=%s" % (
+           d_rows is not None and H.canon(fn, d_rows) == p_rows, vals_ok,
+           d_sum is not None and H.canon(fn, d_sum) == p_sum, ret_ok))
+  # translation is skipped only when no action summary is given (or there are no values): with
+  # both truthy no path gets to the delegation without translating (any other condition on the
+  # way leaves both of its branches open)
+  given = lambda e: True if isinstance(e, ast.Name) and e.id in (p_sum, p_vals) and \
+      rd.reaching(e.id, cfg.entry.id) is not None else None
+  loop_node = getattr(comp, "_loop_node", None)
+  must = {tn.id} if loop_node is None else {loop_node}
+  rebound = du.rebinders(p_sum)
+  unguarded = dn.id in H.reach_assuming(cfg, {cfg.entry.id}, given, removed=must)
+  g_ok = not unguarded and not rebound
+  run.ob(R1, fi.qualname, "if %s: translate" % p_sum, "translation is skipped only when no action "
+         "summary is given (or there are no values)", g_ok, fi=fi,
+         witness=None if g_ok else "a path reaches the delegation without translating although "
+                                   "an action summary (and values) were given")
+  rej = {n.id for (n, c, nm) in fn.calls() if nm == "self._reject_unresolved_temp_ids" and
+         len(c.args) == 1 and isinstance(c.args[0], ast.Name) and
+         H.whole_of(fn, rd, c.args[0], n.id,
+                    lambda x, d: isinstance(x, str) and x == resv and d == tdef) is True}
   if not (ok and g_ok):
     return
-  dn = dele[0][0]
-  first = H.nodes_of_stmts(cfg, chain[-1][0].body[:1])
-  ok_t = dn.id not in cfg.reach(first, removed={tn.id})
-  ok_r = bool(rej) and dn.id not in cfg.reach(first, removed=rej) and \
-      all(r in cfg.reach_after({tn.id}) and tn.id not in cfg.reach_after({r}) for r in rej)
+  # with a summary: translate, then reject, then delegate
+  ok_r = bool(rej) and dn.id not in H.reach_assuming(cfg, {cfg.entry.id}, given, removed=rej)
   run.ob(R1, fi.qualname, "translate -> self._reject_unresolved_temp_ids(%s) -> delegate" % resv,
          "with an action summary, every path to the delegation translates first and then rejects "
-         "ids that stayed negative", ok_t and ok_r, fi=fi,
+         "ids that stayed negative", ok_r, fi=fi,
          witness=None if ok_r else "a path from the guarded block reaches the delegation without "
                                    "the rejection of the translated values")
+
+
+def _is_param_itself(fn, du, rd, e, at, param, depth=0):
+  """Name e read at `at` is parameter `param` as passed in: the parameter or plain aliases of it,
+  none of them mutated in place."""
+  if not isinstance(e, ast.Name) or depth > 6 or du.muts.get(e.id):
+    return False
+  ds = rd.reaching(e.id, at)
+  if not ds:
+    return False
+  for d in ds:
+    if d == H.ReachDefs.ENTRY:
+      if e.id != param:
+        return False
+      continue
+    v = H.def_value(rd.cfg, d)
+    if not (isinstance(v, ast.Name) and _is_param_itself(fn, du, rd, v, d, param, depth + 1)):
+      return False
+  return True
+
+
+def _defs_feeding(fn, rd, e, at, depth=0):
+  """Definition nodes the value of Name e at `at` may come from, through plain copies."""
+  out = set()
+  if not isinstance(e, ast.Name) or depth > 6:
+    return out
+  for d in rd.reaching(e.id, at):
+    out.add(d)
+    v = H.def_value(rd.cfg, d)
+    if isinstance(v, ast.Name):
+      out |= _defs_feeding(fn, rd, v, d, depth + 1)
+  return out
 
 
 # ------------------------------------------------------------------------------------------ R2
@@ -199,20 +354,26 @@ def r2_call_sites(run, w):
                "Engine.convert_action_values (which supplies the action summary)", False, fi=fi,
                node=c, nontrivial=False)
         continue
-      kw = H.kwarg(c, "action_summary")
+      base = w.repo.func("column.BaseColumn.prepare_new_values")
+      cf = w.fn_of(fi)
+      try:
+        kw = H.arg_of(c, base, "action_summary")
+        rows = H.arg_of(c, base, base.params()[1])
+      except AnalysisError:
+        raise AnalysisError("convert_action_values: cannot bind the arguments of %s" % short(c))
       run.ob(R2, fi.qualname, short(c), "the call supplies the bundle's action summary, and the "
-             "action's own row ids", kw is not None and text(kw) == "self.out_actions.summary" and
-             len(c.args) >= 2 and isinstance(c.args[0], ast.Name), fi=fi, node=c)
+             "action's own row ids", kw is not None and
+             H.canon(cf, kw) == "self.out_actions.summary" and rows is not None and
+             isinstance(H.deref(cf, rows), (ast.Name, ast.Attribute)), fi=fi, node=c)
   if n == 0:
     raise AnalysisError("no prepare_new_values call site found")
   # both halves of convert_action_values: mentioned columns, and all other data columns on adds
   fn = w.fn("engine.Engine.convert_action_values")
-  loops = [s for s in ast.walk(fn.node) if isinstance(s, ast.For) and
-           any(isinstance(c.func, ast.Attribute) and c.func.attr == "prepare_new_values"
-               for c in calls_in(s.body))]
+  sites = [c for c in calls_in(fn.node.body) if isinstance(c.func, ast.Attribute) and
+           c.func.attr == "prepare_new_values"]
   run.ob(R2, fn.qualname, "explicit columns and defaulted columns", "values given explicitly and "
          "defaults of the remaining data columns both go through prepare_new_values",
-         len(loops) == 2, fi=fn.fi, nontrivial=False)
+         len(sites) >= 2, fi=fn.fi, nontrivial=False)
 
 
 # ------------------------------------------------------------------------------------------ R3
@@ -257,13 +418,27 @@ def r3_row_ids(run, w):
          "same action is translated (rows may refer to each other)", ok, fi=fn.fi, node=uc,
          witness=None if ok else cfg.describe_path(cfg.path(cfg.entry.id, {cn.id},
                                                             removed={un.id})))
-  filled = text(uc.args[2]) if len(uc.args) == 3 else None
-  fd = H.single_def(fn, filled) if filled else None
-  copy_ok = fd is not None and (text(fd) in ("%s[:]" % ps[2], "list(%s)" % ps[2],
-                                             "%s.copy()" % ps[2]))
-  ok = len(uc.args) == 3 and text(uc.args[0]) == ps[1] and text(uc.args[1]) == ps[2] and \
-      filled != ps[2] and copy_ok and H.unrebound_at(fn, du, ps[2], un.id) and \
-      H.unrebound_at(fn, du, ps[1], un.id)
+  rd = H.ReachDefs(fn, du)
+  ENTRY = H.ReachDefs.ENTRY
+  ufi = w.repo.func("action_summary.ActionSummary.update_new_rows_map")
+  try:
+    u_table, u_temp, u_final = [H.arg_of(uc, ufi, p) for p in ufi.params()[1:4]]
+  except AnalysisError:
+    u_table = u_temp = u_final = None
+  if u_final is None or not isinstance(u_final, ast.Name):
+    raise AnalysisError("doBulkAddOrReplace: cannot bind the arguments of %s" % short(uc))
+  filled = u_final.id
+  fdefs = rd.reaching(filled, un.id)
+  # the filled ids are a copy of the requested ids (made before they are filled in), not the
+  # requested list itself
+  req = lambda x, d: isinstance(x, str) and x == ps[2] and d == ENTRY
+  fvals = [H.def_value(cfg, d) for d in fdefs]
+  copy_ok = bool(fvals) and all(v is not None and not isinstance(v, ast.Name) and
+                                H.whole_of(fn, rd, v, d, req) is True
+                                for v, d in zip(fvals, fdefs))
+  ok = u_table is not None and H.canon(fn, u_table) == ps[1] and \
+      isinstance(u_temp, ast.Name) and _is_param_itself(fn, du, rd, u_temp, un.id, ps[2]) and \
+      filled != ps[2] and copy_ok and H.unrebound_at(fn, du, ps[1], un.id)
   run.ob(R3, fn.qualname, short(uc), "the map pairs the ids as requested (temporary ones "
          "included) with the ids filled in for the same positions", ok, fi=fn.fi, node=uc)
   # the fill loop is over before the map is recorded
@@ -271,14 +446,21 @@ def r3_row_ids(run, w):
   ok = bool(fills) and not (cfg.reach_after({un.id}) & fills)
   run.ob(R3, fn.qualname, "%s filled before it is recorded" % filled, "the recorded final ids are "
          "final", ok, fi=fn.fi)
+  same_filled = lambda x, d: isinstance(x, str) and x == filled and d in fdefs
   ctors = [x for x in _ctor_sites(fn, names, ("BulkAddRecord",)) if x[0].id == cn.id]
-  ok = len(ctors) == 1 and len(ctors[0][2].args) == 3 and text(ctors[0][2].args[0]) == ps[1] and \
-      text(ctors[0][2].args[1]) == filled
+  ok = len(ctors) == 1
+  if ok:
+    k, c = ctors[0][1], ctors[0][2]
+    a0, a1 = H.action_arg(c, names, k, 0), H.action_arg(c, names, k, 1)
+    ok = H.action_nargs(c) == 3 and a0 is not None and H.canon(fn, a0) == ps[1] and \
+        H.unrebound_at(fn, du, ps[1], cn.id) and a1 is not None and \
+        H.whole_of(fn, rd, a1, cn.id, same_filled) is True
   run.ob(R3, fn.qualname, "convert_action_values(ActionType(table_id, %s, ...))" % filled,
          "the action that adds the rows uses exactly the ids recorded in the map", ok, fi=fn.fi)
   rets = [n for n in cfg.nodes if n.kind == "return"]
   run.ob(R3, fn.qualname, "return %s" % filled, "the caller is told the final ids",
-         bool(rets) and all(n.stmt.value is not None and text(n.stmt.value) == filled
+         bool(rets) and all(n.stmt.value is not None and
+                            H.whole_of(fn, rd, n.stmt.value, n.id, same_filled) is True
                             for n in rets), fi=fn.fi, nontrivial=False)
   # --- updates and removes
   for q, kind in (("useractions.UserActions.doBulkUpdateRecord", "BulkUpdateRecord"),
@@ -391,15 +573,22 @@ def r3_row_ids(run, w):
          "and t < 0)", "every negative requested id is mapped to the id filled in at the same "
          "position", ok, fi=up.fi)
   ps = tr.fi.params()
-  rets = [s for s in ast.walk(tr.node) if isinstance(s, ast.Return)]
+  tdu = DefUse(tr)
+  rets = H.return_values(tr, tdu, H.ReachDefs(tr, tdu))
   ok = False
-  if len(rets) == 1 and isinstance(rets[0].value, ast.ListComp):
-    lc = rets[0].value
+  if len(rets) == 1 and isinstance(rets[0][1], ast.ListComp) and \
+      len(rets[0][1].generators) == 1:
+    lc = rets[0][1]
     gen = lc.generators[0]
     v = text(gen.target)
-    ok = text(gen.iter) == ps[2] and not gen.ifs and isinstance(lc.elt, ast.Call) and \
+    mp = table_map(tr)
+    ok = H.canon(tr, gen.iter) == ps[2] and not gen.ifs and isinstance(lc.elt, ast.Call) and \
         isinstance(lc.elt.func, ast.Attribute) and lc.elt.func.attr == "get" and \
-        [text(x) for x in lc.elt.args] == [v, v]
+        isinstance(lc.elt.func.value, ast.Attribute) and lc.elt.func.value.attr in mp and \
+        [text(x) for x in lc.elt.args] == [v, v] and not lc.elt.keywords
+  elif not (len(rets) == 1 and isinstance(rets[0][1], (ast.ListComp, ast.Call, ast.Name,
+                                                         ast.List, ast.GeneratorExp))):
+    raise AnalysisError("translate_new_row_ids: returned value not recognised")
   run.ob(R3, tr.qualname, "[map.get(r, r) for r in row_ids]", "translation keeps positions, maps "
          "known temporary ids and leaves every other id unchanged", ok, fi=tr.fi)
 
